@@ -263,6 +263,15 @@ Incr == /\ Is("Incr")
            fails' = (IF Ev.val # exp THEN {F("C09", <<"incremental value", Ev.axis, Ev.step, Ev.val, exp>>, "incremental")} ELSE {})
         /\ l' = l + 1 /\ UNCHANGED <<run, scen, params, base, objs, call, hist, expect>>
 
+\* C09 at the far end of the int range: the circuit magnified by K has K times the wirelength (quotients logged, remainders zero)
+HpwlScale == /\ Is("HpwlScale")
+             /\ LET c == Ev.circ IN
+                fails' = (IF Ev.r # 0 \/ Ev.q # Hpwl(c)
+                          THEN {F("C09", <<"wirelength of the circuit magnified by K is not K times the wirelength", Ev.K, Ev.q, Ev.r, Hpwl(c)>>, "hpwl-scale")} ELSE {}) \cup
+                         (IF Ev.rx # 0 \/ Ev.qx # HpwlX(c) \/ Ev.ry # 0 \/ Ev.qy # HpwlY(c)
+                          THEN {F("C09", <<"incremental model of the circuit magnified by K", Ev.K, Ev.qx, HpwlX(c), Ev.qy, HpwlY(c)>>, "hpwl-scale-incr")} ELSE {})
+             /\ l' = l + 1 /\ UNCHANGED <<run, scen, params, base, objs, call, hist, expect>>
+
 \* C02 / C04 / C05: one optimiser pass of detailed placement driven directly (after a successful legalization of the object)
 PassEv == /\ Is("Pass") /\ ~call.active
           /\ LET o == Ev.obj c == Ev.circ prev == objs[Ev.obj] leg == hist[Ev.obj]["legalize"].result IN
@@ -427,7 +436,7 @@ ParamCheck == /\ Is("ParamCheck")
               /\ fails' = ParamCheckFails(Ev)
               /\ l' = l + 1 /\ UNCHANGED <<run, scen, params, base, objs, call, hist, expect>>
 
-Next == FreeUse \/ ApiEv \/ PassEv \/ PassThrow \/ RoundTrip \/ ExportEv \/ BindEv \/ ExpandEv \/ GridEv \/ SolveEv \/ Schedule \/ HarnessError \/ ExpectReject \/ ParamsCtor \/ ParamCheck \/ Rebase \/ FreeEv \/ Incr \/ Reset \/ Begin \/ Cb \/ CbThrow \/ EndReturn \/ EndThrow \/ BadFate \/ Setter
+Next == HpwlScale \/ FreeUse \/ ApiEv \/ PassEv \/ PassThrow \/ RoundTrip \/ ExportEv \/ BindEv \/ ExpandEv \/ GridEv \/ SolveEv \/ Schedule \/ HarnessError \/ ExpectReject \/ ParamsCtor \/ ParamCheck \/ Rebase \/ FreeEv \/ Incr \/ Reset \/ Begin \/ Cb \/ CbThrow \/ EndReturn \/ EndThrow \/ BadFate \/ Setter
 Spec == Init /\ [][Next]_vars
 
 ---------------------------------------------------------------------------
